@@ -95,7 +95,7 @@ def sany(module):
 
 # ---------------------------------------------------------------------------------------------------------
 # TLA+ value text (as printed by -dump / -simulate) -> python
-_TOK = re.compile(r'<<|>>|\|->|:>|@@|[\[\]{}(),]|"(?:[^"\\]|\\.)*"|-?\d+|[A-Za-z_][A-Za-z0-9_]*')
+_TOK = re.compile(r'<<|>>|\|->|:>|@@|\.\.|[\[\]{}(),]|"(?:[^"\\]|\\.)*"|-?\d+|[A-Za-z_][A-Za-z0-9_]*')
 
 
 def parse_value(text):
@@ -161,6 +161,9 @@ def parse_value(text):
         if t.startswith('"'):
             return t[1:-1]
         if re.fullmatch(r"-?\d+", t):
+            if peek() == "..":          # an interval set a..b
+                take()
+                return list(range(int(t), int(take()) + 1))
             return int(t)
         return t  # model value / identifier
 
